@@ -7,6 +7,7 @@ Cases == JsonDeserialize(IOEnv.CASES)
 View(s, op) ==
     [ bins |-> s.bins, min |-> s.min, max |-> s.max, bounds |-> s.bounds, size |-> Mid(s.bounds), psd |-> s.psd,
       err |-> s.err, consistent |-> (s.err # "" \/ GridConsistent(s)),
+      hasRec |-> s.hasRec, rec |-> s.rec,
       m3 |-> Mom(s.psd, s.bounds, 3),
       moments |-> IF op.op = "moments" THEN Moments(s, TestN(s.bins), TestW(s.bins)) ELSE [none |-> TRUE] ]
 
